@@ -44,6 +44,19 @@ type ECase struct {
 	// that style (the desired state a user gets from schema.sql / another database: tables carry the
 	// sqlite_autoindex_* indexes of their UNIQUE constraints).
 	Desired string `json:"desired,omitempty"`
+	// Hostile cases (hostile.go): the current state is created by executing RawA, the desired graph is
+	// InspectSchema of a second database created by RawB; facts are read by pragmaFacts.
+	Hostile bool     `json:"hostile,omitempty"`
+	RawA    []string `json:"raw_a,omitempty"`
+	RawB    []string `json:"raw_b,omitempty"`
+}
+
+// factsOf is the independent fact reader of the case.
+func (cs ECase) factsOf(db *sql.DB) (sqlm.Facts, error) {
+	if cs.Hostile {
+		return pragmaFacts(db)
+	}
+	return sqlm.DBFacts(db)
 }
 
 // EOutcome is what one engine case showed.
@@ -73,6 +86,17 @@ type EOutcome struct {
 // empty database, or through sqlm's own raw DDL renderer.
 func setup(ctx context.Context, path string, cs ECase) string {
 	sqlm.RemoveDB(path)
+	if cs.Hostile {
+		db, err := sqlm.OpenDBNoFK(path)
+		if err != nil {
+			return "open"
+		}
+		defer db.Close()
+		if err := sqlm.ExecAll(db, cs.RawA); err != nil {
+			return "setup-raw-hostile"
+		}
+		return ""
+	}
 	if cs.Mode == "atlas" || cs.Mode == "" {
 		db, err := sqlm.OpenDB(path)
 		if err != nil {
@@ -177,6 +201,12 @@ func runEngine(ctx context.Context, dir string, cs ECase, judge func(*migrate.Pl
 	// arguments in place) and one per direction of the final comparison
 	cur, drv, err := inspect(ctx, db)
 	if err != nil {
+		if cs.Hostile {
+			// Atlas cannot inspect the database at all (a single quote in a table / index name breaks the
+			// inspector's pragma_…('%s') queries): the inspector's problem, no plan exists to be judged here
+			o.OOD, o.Why = "inspector-error-on-hostile-name", err.Error()
+			return
+		}
 		o.Inconclusive = "inspect-start"
 		return
 	}
@@ -211,7 +241,24 @@ func runEngine(ctx context.Context, dir string, cs ECase, judge func(*migrate.Pl
 		}
 	} else {
 		var desired *schema.Schema
-		if strings.HasPrefix(cs.Desired, "inspect:") {
+		if cs.Hostile {
+			path2 := filepath.Join(dir, "desired.db")
+			defer sqlm.RemoveDB(path2)
+			ddb, err := sqlm.OpenDBNoFK(path2)
+			if err != nil {
+				o.Inconclusive = "open"
+				return
+			}
+			defer ddb.Close()
+			if err := sqlm.ExecAll(ddb, cs.RawB); err != nil {
+				o.Inconclusive = "desired-raw-hostile"
+				return
+			}
+			if desired, _, err = inspect(ctx, ddb); err != nil {
+				o.OOD, o.Why = "inspector-error-on-hostile-name", err.Error()
+				return
+			}
+		} else if strings.HasPrefix(cs.Desired, "inspect:") {
 			st, ok := sqlm.StyleByName(strings.TrimPrefix(cs.Desired, "inspect:"))
 			if !ok {
 				o.Inconclusive = "unknown-style"
@@ -275,7 +322,7 @@ func runEngine(ctx context.Context, dir string, cs ECase, judge func(*migrate.Pl
 	o.Kinds = sortedSet(kinds)
 	o.Down, _ = reverseList(plan)
 
-	facts0, err := sqlm.DBFacts(db)
+	facts0, err := cs.factsOf(db)
 	if err != nil {
 		o.Inconclusive = "facts-start"
 		return
@@ -322,13 +369,13 @@ func runEngine(ctx context.Context, dir string, cs ECase, judge func(*migrate.Pl
 			return
 		}
 	}
-	facts1, err := sqlm.DBFacts(xdb)
+	facts1, err := cs.factsOf(xdb)
 	if err != nil {
 		o.Inconclusive = "facts-after-up"
 		return
 	}
 	o.UpChanged = len(sqlm.DiffFacts(facts0, facts1)) > 0
-	if cs.Rename == nil {
+	if cs.Rename == nil && !cs.Hostile {
 		o.ReachedB = "yes"
 		if d := sqlm.IgnoreCheckNaming(sqlm.DiffFacts(cs.B.Facts(), facts1)); len(d) > 0 {
 			o.ReachedB = "no"
@@ -352,7 +399,7 @@ func runEngine(ctx context.Context, dir string, cs ECase, judge func(*migrate.Pl
 		return
 	}
 	defer db2.Close()
-	facts2, err := sqlm.DBFacts(db2)
+	facts2, err := cs.factsOf(db2)
 	if err != nil {
 		o.Inconclusive = "facts-after-down"
 		return
@@ -561,7 +608,7 @@ func touching(p *migrate.Plan, tables []string) string {
 		}
 		text := c.Cmd + "\n" + strings.Join(r, "\n")
 		for _, t := range tables {
-			if strings.Contains(text, "`"+t+"`") {
+			if strings.Contains(text, "`"+strings.ReplaceAll(t, "`", "``")+"`") {
 				set[stmtKind(c.Cmd)] = true
 			}
 		}
@@ -750,6 +797,27 @@ func engineCases(c *rt.Ctx) []ECase {
 			}
 		}
 	}
+	// (8) tables with explicit indexes over exactly the primary key columns / a prefix / a permutation:
+	// create, drop-all (every mode, empty and populated), drop of one table, additive edits. Not randomised.
+	for pi, p := range pkIndexPool() {
+		out = append(out, ECase{Name: "create/" + p.Name, Src: "pkidx", B: p.S, Mode: "atlas"})
+		for mi, m := range engineModes {
+			out = append(out, ECase{Name: "drop-all/" + p.Name + "/" + m, Src: "pkidx", A: p.S, Mode: m, Rows: ((pi + mi) % 2) * 3})
+		}
+		k := 0
+		for _, e := range sqlm.Neighbourhood(p.S) {
+			if e.Kind == "table.drop" || e.Kind == "idx.drop" || e.Kind == "idx.add.unique" || e.Kind == "col.add.null" && k%4 == 0 {
+				rows := 0
+				if e.Safe {
+					rows = (k % 2) * 3
+				}
+				out = append(out, ECase{Name: "edit/" + p.Name + "/" + e.String(), Src: "pkidx", A: p.S, B: e.Apply(p.S), Mode: engineModes[k%len(engineModes)], Rows: rows, Edits: []string{e.String()}})
+			}
+			k++
+		}
+	}
+	// (9) hostile identifiers (hostile.go)
+	out = append(out, hostileCases()...)
 	// (6) renames (hand-built change lists; the connected planner supports them)
 	for pi, p := range pool {
 		if p.Name == "all" && c.Quick() {
@@ -801,6 +869,9 @@ func evalEngineCase(c *rt.Ctx, w *rt.W, cs ECase) {
 		return
 	case o.OOD != "":
 		c.OOD(o.OOD)
+		if o.Why != "" {
+			c.Info(map[string]any{"ood": o.OOD, "case": cs.Name, "why": o.Why})
+		}
 		return
 	}
 	c.Count("engine-plans:"+cs.Src, 1)
